@@ -111,17 +111,21 @@ func (it *Item[T]) Remove() bool {
 		return false
 	}
 
-	// ok, go looking for the detach point in the stack.
-	for next := it.stack.head; next.Ok(); next = next.next {
-		// the next item is going to be the head of the new stack
-		if next == it {
+	// the head item keeps its historical behavior (it is detached
+	// and the length is adjusted, but it stays reachable as the head.)
+	if it.stack.head == it {
+		it.stack.length--
+		it.stack = nil
+		return true
+	}
+
+	// ok, go looking for the item before this one, and unlink.
+	for prev := it.stack.head; prev.Ok(); prev = prev.next {
+		if prev.next == it {
+			prev.next = it.next
 			it.stack.length--
 			it.stack = nil
-			next.next = it.next
 			return true
-		}
-		if next.next == nil {
-			break
 		}
 	}
 	return false
